@@ -165,12 +165,34 @@ def _decide(h, meta, cfg, r):
         r.setdefault('fp_ops', {})[mode] = it.stats['fp_ops']
         if cfg.get('keep'):
             open(os.path.join(work, f'interp_{mode}.smt2'), 'w').write('\n'.join(lines) + '\n')
-        # ---- vacuity twin (only once, in the harness's own mode)
+        # ---- vacuity twin (only once, in the harness's own mode): first with the float inputs pinned to
+        # simple distinct values (a ground evaluation), then unpinned
         if r['vacuity'] is None:
-            q = lines + [f'(assert {" ".join(vac) if len(vac) == 1 else "(or " + " ".join(vac) + ")"})', '(check-sat)']
-            v, o, s = engine.run_solver(q, cfg['solver_cap'], cfg['seed'])
-            r['queries'] += 1
-            r['solver_s'] += s
+            vq = f'(assert {" ".join(vac) if len(vac) == 1 else "(or " + " ".join(vac) + ")"})'
+            pins = []
+            if ins['f64'] or mode != 'U':
+                for variant in (0, 1):
+                    pl = []
+                    for k in range(engine.NINPUT):
+                        num = (k * 37 + 11) % 101 + 8 if variant == 0 else -((k * 53 + 7) % 89) - 3
+                        if mode == 'R':
+                            lit = f'(/ {abs(num)}.0 8.0)' if num >= 0 else f'(- (/ {abs(num)}.0 8.0))'
+                        else:
+                            import struct
+                            bits = struct.unpack('<Q', struct.pack('<d', num / 8.0))[0]
+                            lit = f'((_ to_fp 11 53) #x{bits:016x})' if mode == 'B' else f'#x{bits:016x}'
+                        pl.append(f'(assert (= ({UFPFX}in_f64 (_ bv{k} 32)) {lit}))')
+                    pins.append(pl)
+            if UFPFX + 'in_f64' not in it.funret:
+                pins = []
+            v = None
+            for pl in pins + [[]]:
+                q = lines + pl + [vq, '(check-sat)']
+                v, o, s = engine.run_solver(q, cfg['solver_cap'] if not pl else min(cfg['solver_cap'], 20), cfg['seed'])
+                r['queries'] += 1
+                r['solver_s'] += s
+                if v == 'sat':
+                    break
             r['vacuity'] = v
             if v != 'sat':
                 r['verdict'] = 'error' if v == 'unsat' else 'undecided'
